@@ -158,6 +158,74 @@ fn main() {
         let thorough = ctx.tier == "thorough";
         for i in ctx.indices() {
             let mut rng = ctx.rng(i);
+            if i % 150 == 7 && ctx.tier != "replay-small" {
+                // large-anchor pool: more than 1000 / 1024 / 2048 uniquely shared lines, blocks of
+                // nearly equal size swapped, so that the LCS over the anchors has near-ties
+                let mut sizes = vec![1001usize, 1010, 1024, 1030, 1100, 1200];
+                if thorough && rng.chance(1, 4) {
+                    sizes = vec![2049, 2060, 2100, 2500];
+                }
+                let n = *rng.pick(&sizes);
+                let alpha: Vec<u8> = (b'a'..=b'z').chain(b'A'..=b'Z').collect();
+                let line = |id: usize| vec![alpha[id / 52 % 52], alpha[id % 52], b'\n'];
+                let mut ids: Vec<usize> = (0..2704).collect();
+                rng.shuffle(&mut ids);
+                let base: Vec<usize> = ids[..n].to_vec();
+                let mut fresh = n;
+                let n_inputs = if rng.chance(1, 3) { 3 } else { 2 };
+                let mut docs: Vec<Vec<usize>> = vec![base.clone()];
+                for _ in 1..n_inputs {
+                    let mut d = base.clone();
+                    for _ in 0..rng.range(2, 4) {
+                        let k = rng.range(20, 80) as usize;
+                        let k2 = k + rng.usize(3);
+                        let at = rng.usize(d.len() - k - k2);
+                        let a: Vec<usize> = d[at..at + k].to_vec();
+                        let b: Vec<usize> = d[at + k..at + k + k2].to_vec();
+                        d.splice(at..at + k + k2, b.into_iter().chain(a));
+                    }
+                    for _ in 0..rng.range(0, 2) {
+                        let at = rng.usize(d.len());
+                        d.remove(at);
+                    }
+                    for _ in 0..rng.range(0, 2) {
+                        let at = rng.usize(d.len() + 1);
+                        d.insert(at, ids[fresh]);
+                        fresh += 1;
+                    }
+                    docs.push(d);
+                }
+                let inputs: Vec<Vec<u8>> =
+                    docs.iter().map(|d| d.iter().flat_map(|id| line(*id)).collect()).collect();
+                let steps = if rng.chance(1, 2) {
+                    vec![(Tok::Line, Cmp::Exact)]
+                } else {
+                    vec![(Tok::Line, Cmp::Exact), (Tok::Word, Cmp::Exact), (Tok::Nonword, Cmp::Exact)]
+                };
+                let runs: Vec<_> = (0..5).map(|_| jjv::catch(|| run_diff(&inputs, &steps))).collect();
+                let ms = jjv::catch(|| matchings(&inputs, steps[0].0, steps[0].1));
+                let panicked = runs[0].is_none() || ms.is_none();
+                if panicked {
+                    ctx.panicked();
+                }
+                let same = runs.iter().all(|r| *r == runs[0]);
+                let hunks = runs[0].clone().unwrap_or_default();
+                let ms = ms.unwrap_or_default();
+                let term = coq::app(
+                    "C03.DiffCase",
+                    &[
+                        coq::list(inputs.iter(), |x| coq::bytes(x)),
+                        coq::list(steps.iter(), |(t, c)| coq::pair(coq::n(t.code()), coq::n(c.code()))),
+                        coq::list(hunks.iter(), |(k, rs)| coq::pair(coq::b(*k), pairs(rs))),
+                        coq::list(ms.iter(), |m| pairs(m)),
+                        coq::b(same),
+                        coq::b(panicked),
+                    ],
+                );
+                let shape = format!("diff large-anchor {}", if n > 2048 { ">2048" } else if n > 1024 { ">1024" } else { ">1000" });
+                ctx.emit(i, term, true, &shape);
+                continue;
+            }
             let kind = rng.below(10);
             if kind == 0 {
                 // find_lcs on a permutation (as the algorithm produces) or on an arbitrary vector
